@@ -20,7 +20,7 @@ ID = "C07"
 RULE = (
     "Generated class models (Evt/Jet/Trk with methods val/jets/trks/obj and a func_adl_callable function fn): every "
     "signature has 0-4 positional-or-keyword parameters with any trailing subset defaulted (str/int/float/bool defaults, "
-    "incl. negative numbers and quotes); the method name val exists on all three classes with different signatures. Call "
+    "incl. negative numbers and quotes); the method name val exists on all three classes with different signatures and is, per case, optionally renamed to the name of a stream member (value, Select, Where, MetaData, First, Count, item_type, query_ast...). Call "
     "shapes: k positional + any subset of the remaining parameters by keyword in any order + omitted defaults, plus shapes "
     "missing a required parameter. Placement: depth 0-3 through typed method chains, Select/Where/SelectMany/First/Count on "
     "typed collections, dictionary fields carried to a next stage, call sites as arguments of other call sites; lambda "
@@ -157,7 +157,7 @@ def _case(draw, maxdepth):
         p2, v2 = draw(st.sampled_from(names)), draw(st.sampled_from(names))
         inner = draw(_val(v2, "Jet", depth, model, names, miss))
         stages = [["Select", p, ["site", ["var", p], "Evt", "jets", pos, kw]], ["Select", p2, ["op", "Select", ["var", p2], v2, inner]]]
-    return {"model": model, "stages": stages}
+    return {"model": model, "stages": stages, "alias": draw(st.sampled_from(ALIASES))}
 
 
 def strategy(tier):
@@ -212,8 +212,11 @@ def exhaustive(tier):
 # model construction and reference binder
 
 
-def build_model(model):
-    ns = {"Iterable": Iterable}
+ALIASES = ["val", "val", "value", "Select", "Where", "MetaData", "SelectMany", "item_type", "First", "Count", "query_ast"]
+
+
+def build_model(model, alias="val"):
+    ns = {"Iterable": Iterable, "_alias": alias}
     src = []
     ret = {"Evt.val": "float", "Evt.jets": "Iterable[Jet]", "Jet.val": "float", "Jet.trks": "Iterable[Trk]", "Jet.obj": "Trk", "Trk.val": "float"}
 
@@ -233,6 +236,8 @@ def build_model(model):
         for key, sig in model.items():
             if key.startswith(cls + "."):
                 meth = key.split(".")[1]
+                if meth == "val":
+                    meth = alias
                 ps = params(sig, key.replace(".", "_"))
                 src.append(f"    def {meth}(self{', ' + ps if ps else ''}) -> '{ret[key]}': ...")
     src.append(f"def fn({params(model['fn'], 'fn')}) -> float: ...")
@@ -255,6 +260,8 @@ def render(ir, ns, mode, consts):
     if k in ("site", "fn"):
         if k == "site":
             _, recv, cls, meth, pos, kw = ir
+            if meth == "val":
+                meth = ns["_alias"]
             func = getattr(ns[cls], meth)
             head = f"{_pr(R(recv))}.{meth}"
             skip = 1
@@ -337,7 +344,7 @@ def _depth_of_sites(ir, d=0):
 def check(case) -> Result:
     from func_adl import EventDataset, func_adl_callable
 
-    ns = build_model(case["model"])
+    ns = build_model(case["model"], case.get("alias", "val"))
     func_adl_callable()(ns["fn"])
 
     class DS(EventDataset):
@@ -377,6 +384,8 @@ def check(case) -> Result:
         r.labels.append("two-stages")
     if missing:
         r.labels.append("missing-required")
+    if case.get("alias", "val") != "val":
+        r.labels.append("method-named-like-a-stream-member")
     r.nontrivial = nontriv
 
     s = DS(ns["Evt"])
